@@ -120,6 +120,7 @@ class Prop(Check):
         "BaseTypes.C04_bool",
         "BaseTypes.C04_int_only",
         "BaseTypes.C04_number_line",
+        "BaseTypes.C04_number_line_unseparated_false",
         "BaseTypes.C04_int_line",
         "BaseTypes.C04_float_line",
         "BaseTypes.C04_bool_line",
@@ -143,8 +144,13 @@ class Prop(Check):
     MODELLED = ("regenerated (tie T): the six base-type regexes of textx/lang.py (Python's re._parser -> Re.R) and the "
                 "default conversion lambdas of textx/metamodel.py (ast -> Gen.Procs); hand-modelled: the regex engine "
                 "(Re.m vs re.match, tie X op re), `v*=TYPE` + EOF with whitespace skipping (BaseTypes.tokens, tie X op "
-                "tokens); not exhibited: the numeric value computed by float() (int() is modelled: Py.intOf), Unicode "
-                "classification (a parameter; Python's own tables are sent with each case)")
+                "tokens); the literal forms the theorems quantify over are tied to what Python prints: the Lean scanners "
+                "intLit?/floatLit? (proved to be exactly the grammars IntLit.WF / FloatLit.WF asciiCC) classify every "
+                "generated literal (str(int), repr, %e, %E, %g, %f, .5, 5., 12e5), `lineHyp` (the decidable hypotheses of "
+                "C04_line_checked) is evaluated by the driver on every generated line and compared with the harness's "
+                "own hypothesis predicate, the values the theorem promises are compared with the implementation, and "
+                "Py.strInt is compared with str(int); not exhibited: the numeric value computed by float() (int() is "
+                "modelled: Py.intOf), Unicode classification (a parameter; Python's own tables are sent with each case)")
     ASSUMPTIONS = [
         "CPython: float(repr(x)) == x and float() accepts every literal the FLOAT regexes match",
         "sre: an empty loop iteration ends a loop (no loop body of the base-type regexes matches empty)",
